@@ -87,12 +87,15 @@ def check(ctx, rep):
             for m in c.methods.values():
                 if prog.resolve_method(C, m.name) is not m:
                     continue
-                for loop in [n for n in ast.walk(m.node) if isinstance(n, ast.For)]:
-                    it = expand_ast(loop.iter, m)
+                cands = [n for n in ast.walk(m.node) if isinstance(n, ast.For)]
+                cands += [n for n in ast.walk(m.node) if isinstance(n, (ast.ListComp, ast.SetComp, ast.GeneratorExp)) and len(n.generators) == 1]
+                for loop in cands:
+                    it = expand_ast(loop.iter if isinstance(loop, ast.For) else loop.generators[0].iter, m)
                     if "listdir(" not in norm(it):
                         continue
+                    loop_iter = loop.iter if isinstance(loop, ast.For) else loop.generators[0].iter
                     is_sorted = _is_sorted_expr(it) or any(
-                        isinstance(n, ast.Call) and isinstance(n.func, ast.Attribute) and n.func.attr == "sort" and norm(n.func.value) == norm(loop.iter)
+                        isinstance(n, ast.Call) and isinstance(n.func, ast.Attribute) and n.func.attr == "sort" and norm(n.func.value) == norm(loop_iter)
                         and n.lineno < loop.lineno for n in ast.walk(m.node))
                     problems = []
                     if not is_sorted:
@@ -195,8 +198,26 @@ def check(ctx, rep):
     else:
         loops = [n for n in ast.walk(pi.node) if isinstance(n, ast.For) and "listdir(" in norm(expand_ast(n.iter, pi))]
         problems = []
-        if len(loops) != 1:
-            problems.append(f"{len(loops)} loops over the directory contents")
+        comps = []
+        for n in ast.walk(pi.node):
+            if isinstance(n, ast.Assign) and any(norm(t) == "self.files" for t in n.targets) and isinstance(n.value, ast.ListComp) \
+                    and len(n.value.generators) == 1 and "listdir(" in norm(expand_ast(n.value.generators[0].iter, pi)):
+                comps.append(n.value)
+        for comp in comps:
+            g = comp.generators[0]
+            var = norm(g.target)
+            from ..structure import concat_pieces
+
+            if norm(comp.elt) != var:
+                problems.append("the comprehension collects something other than the directory entry's name")
+            tests = [t for t in g.ifs]
+            okf = len(tests) == 1 and isinstance(tests[0], ast.Call) and isinstance(tests[0].func, ast.Attribute) \
+                and tests[0].func.attr == "prep_initfiles_canaddfile" and len(tests[0].args) >= 3 and norm(tests[0].args[2]) == var \
+                and concat_pieces(expand_ast(tests[0].args[1], pi)) == [("expr", "self.selectorbase"), ("lit", "/"), ("expr", var)]
+            if not okf:
+                problems.append("names are not filtered by prep_initfiles_canaddfile(ignorepatt, selectorbase/name, name)")
+        if len(loops) + len(comps) != 1:
+            problems.append(f"{len(loops) + len(comps)} loops over the directory contents")
         for loop in loops:
             var = norm(loop.target)
             w = Walker(prog, ctx.resolver)
